@@ -245,6 +245,7 @@ Section stmt_ind2.
   Hypothesis HExpr : forall e, P (SExpr e).
   Hypothesis HDisj : forall lbl cs, Forall (Forall P) cs -> P (SDisj lbl cs).
   Hypothesis HFormula : forall isfact x scope pred args, P (SFormula isfact x scope pred args).
+  Hypothesis HAssign : forall path x fresh e, P (SAssign path x fresh e).
 
   Fixpoint stmt_ind2 (s : stmt) : P s :=
     match s with
@@ -265,6 +266,7 @@ Section stmt_ind2.
                     end) b) (f r)
             end) cs)
     | SFormula isfact x scope pred args => HFormula isfact x scope pred args
+    | SAssign path x fresh e => HAssign path x fresh e
     end.
 End stmt_ind2.
 
@@ -354,7 +356,7 @@ Section Sound.
 
   Lemma chk_stmt_sound : forall s e, chk_stmt prog sol s e = true -> sat_stmt prog sol s e.
   Proof.
-    intros s. induction s as [t x init | c x args | c | lbl cs IH | isfact x scope pred args] using stmt_ind2; intros e H; simpl in H; simpl.
+    intros s. induction s as [t x init | c x args | c | lbl cs IH | isfact x scope pred args | path x fresh c] using stmt_ind2; intros e H; simpl in H; simpl.
     - (* SLocal *)
       destruct (own sol e x) as [v|] eqn:Ex; [|discriminate].
       apply andb_true_iff in H as [Ht Hi]. exists v. split; [first [reflexivity | eassumption]|]. split; [apply has_typeb_sound; exact Ht|].
@@ -386,6 +388,12 @@ Section Sound.
         apply andb_true_iff in H2 as [H2 _]. split; [exact H2 | exact H3].
     - (* SFormula *)
       apply formula_okb_sound. exact H.
+    - (* SAssign *)
+      destruct (assign_target sol e path) as [t|] eqn:Et; [|discriminate].
+      destruct (own sol t x) as [v|] eqn:Ev; [|discriminate].
+      exists t, v. split; [reflexivity|]. split; [first [reflexivity | eassumption]|].
+      intros Hf. subst fresh.
+      destruct (eval sol e c) as [u|]; [|discriminate]. exists u. split; [reflexivity | apply veq_trueb_sound; exact H].
   Qed.
 
   Lemma chk_list_sound : forall l e, chk_list prog sol l e = true -> sat_list prog sol l e.
